@@ -12,7 +12,7 @@ META = {
     'functions': ['xrspatial.local.' + f for f in ('cell_stats', 'combine', 'lesser_frequency', 'equal_frequency', 'greater_frequency', 'lowest_position',
                                                    'highest_position', 'rank')],
     'bounds': {'quick': 'datasets of 3 layers (4 for lowest/highest position), shapes 1x2 (every value symbolic, NaN allowed, ties possible) and 2x3 (one symbolic cell at each '
-                        'position, the rest concrete) to expose the column-count reshape; data_vars: all, subsets and non-dataset orders; reference layer symbolic integer in 1..n+1',
+                        'position, the rest concrete) to expose the column-count reshape; data_vars: all, subsets and non-dataset orders; reference layer symbolic integer in 1..n+1; mixed layer dtypes (int32 / float64 / float32 and float32 / int64 / float64) for rank, cell_stats mean / max, lesser_frequency, highest_position, combine',
                'thorough': '4 layers everywhere, 5 for the position operators, 1x3 all-symbolic'},
     'stubs': ['xarray.Dataset = sx.symxr mini Dataset', 'dict / Counter / sorted / list.index on symbolic scalars work through forking == and < (constant hash)'],
     'outside': ['more than 5 layers', 'popularity (not defined by the property statement)', 'float rounding of mean / std'],
